@@ -851,7 +851,7 @@ structure StepInv (w0 : SWorld α B) (gcb : List (String × List String)) (st : 
 
 theorem stepGc_inv (dops : DOps α B) (law : BatLaw dops.bat) (hex : UnloadExact dops.bat)
     (htot : AvailTotal dops.bat) (de : DEnv α) (hed : 0 ≤ de.deps.eps) (heo : 0 ≤ de.opps.eps)
-    (hd : de.deps.ps = none) (ho : de.opps.ps = none)
+    (hd : de.deps.isRule) (ho : de.opps.isRule)
     (ncs : List (String × Option Int)) (conn : List (String × List String)) (lk : Look α)
     (w0 : SWorld α B) (gcb : List (String × List String)) (hgb : ∀ g, ((sdGet gcb g).getD []).Nodup)
     (st st' : SWorld α B × DInit α × List (String × α)) (gcId : String) (hinv : StepInv w0 gcb st)
@@ -879,19 +879,19 @@ theorem stepGc_inv (dops : DOps α B) (law : BatLaw dops.bat) (hex : UnloadExact
               obtain ⟨w', ini', acc'⟩ := st'
               cases kind with
               | deps =>
-                unfold stepDeps at h; simp only [hd] at h
+                unfold stepDeps at h; simp only [hd.1, hd.2] at h
                 obtain ⟨a, b, c, d, e⟩ := stepDeps_inv dops law hex htot de hed st.1 st.2.1 st.2.2 gc stations cvs _
                   w' ini' acc' hgm hnd hinv.batMin hinv.ok h
                 exact ⟨a, hinv.same.trans b, c.trans hinv.batIds, d, by rw [e]; exact hinv.gcb⟩
               | opps =>
-                unfold stepOpps at h; simp only [ho] at h
+                unfold stepOpps at h; simp only [ho.1, ho.2] at h
                 obtain ⟨a, b, c, d, e, _⟩ := stepOpps_inv dops law hex de heo lk st.1 st.2.1 st.2.2 gcId gc stations
                   cvs _ w' ini' acc' hgm hnd hinv.batMin hinv.ok h
                 exact ⟨a, hinv.same.trans b, c.trans hinv.batIds, d, e.trans hinv.gcb⟩
 
 theorem stepGc_fold (dops : DOps α B) (law : BatLaw dops.bat) (hex : UnloadExact dops.bat)
     (htot : AvailTotal dops.bat) (de : DEnv α) (hed : 0 ≤ de.deps.eps) (heo : 0 ≤ de.opps.eps)
-    (hd : de.deps.ps = none) (ho : de.opps.ps = none)
+    (hd : de.deps.isRule) (ho : de.opps.isRule)
     (ncs : List (String × Option Int)) (conn : List (String × List String)) (lk : Look α)
     (w0 : SWorld α B) (gcb : List (String × List String)) (hgb : ∀ g, ((sdGet gcb g).getD []).Nodup)
     (ids : List String) (st st' : SWorld α B × DInit α × List (String × α)) (hinv : StepInv w0 gcb st)
@@ -1020,7 +1020,7 @@ theorem foldlM_preserves {σ ι : Type} (f : σ → ι → Py σ) (P : σ → σ
     · rename_i s1 hs1
       exact ht _ _ _ (hstep s i s1 hs1) (ih s1 h)
 
-theorem stepGc_frame (dops : DOps α B) (de : DEnv α) (hd : de.deps.ps = none) (ho : de.opps.ps = none)
+theorem stepGc_frame (dops : DOps α B) (de : DEnv α) (hd : de.deps.isRule) (ho : de.opps.isRule)
     (ncs : List (String × Option Int))
     (conn : List (String × List String)) (lk : Look α)
     (st st' : SWorld α B × DInit α × List (String × α)) (gcId : String)
@@ -1057,7 +1057,7 @@ theorem stepGc_frame (dops : DOps α B) (de : DEnv α) (hd : de.deps.ps = none) 
                 · rw [hwb] at hm; exact hm
               cases kind with
               | deps =>
-                unfold stepDeps at h; simp only [hd] at h; unfold stepDepsRule at h
+                unfold stepDeps at h; simp only [hd.1, hd.2] at h; unfold stepDepsRule at h
                 simp only [bind, Except.bind] at h
                 split at h
                 · cases h
@@ -1075,7 +1075,7 @@ theorem stepGc_frame (dops : DOps α B) (de : DEnv α) (hd : de.deps.ps = none) 
                   rw [hgcs]
                   exact fin g1 _ hid (writeBack_gcs _ _ _ _)
               | opps =>
-                unfold stepOpps at h; simp only [ho] at h; unfold stepOppsRule at h
+                unfold stepOpps at h; simp only [ho.1, ho.2] at h; unfold stepOppsRule at h
                 simp only [bind, Except.bind] at h
                 split at h
                 · cases h
@@ -1154,8 +1154,8 @@ theorem toyOps_exact (A : ℚ) : UnloadExact (toyOps A) := by
 theorem toyOps_total (A : ℚ) : AvailTotal (toyOps A) := fun _ => ⟨A, rfl⟩
 
 def toyEnv : DEnv ℚ :=
-  ⟨⟨1/100000, 0, 4, 0, 900000000⟩, 1/4, ⟨.greedy, 1/100000, 0, 4, 900000000, none⟩,
-    ⟨.balanced, 1/100000, 0, 4, 900000000, none⟩, []⟩
+  { env := ⟨1/100000, 0, 4, 0, 900000000⟩, hours := 1/4, opps := ⟨.greedy, 1/100000, 0, 4, 900000000, none, none⟩,
+    deps := ⟨.balanced, 1/100000, 0, 4, 900000000, none, none⟩ }
 
 /-- opportunity connector GC1 (limit 10 kW, 4 kW fixed load, price above the threshold) with one vehicle at an
 11 kW station and one stationary battery; depot connector GC2 (limit 20 kW) with one vehicle; 15-minute steps -/
@@ -1167,7 +1167,8 @@ def toyState : DState ℚ ℚ :=
               [⟨"BAT", "GC1", 0, 1/2⟩]⟩,
     numberCs := [("GC1", none), ("GC2", none)],
     connected := [("GC1", []), ("GC2", [])],
-    init := ⟨[("GC1", .opps), ("GC2", .deps)], [("GC1", ["BAT"])], [], [], [], []⟩,
+    init := { strategies := [("GC1", .opps), ("GC2", .deps)], gcBattery := [("GC1", ["BAT"])], virtualVt := [],
+              virtualCs := [] },
     future := [] }
 
 theorem toyState_wf :
